@@ -821,3 +821,495 @@ func nestingAcyclic(c *Ctx) {
 		c.undecided(R, "anchor:attachment", "-", "no attachment of an existing component to another component's Components found")
 	}
 }
+
+// encodingHistoryFree: C13/C14 — the equality encoding of a value is a function of that value. A
+// helper of an encoder that returns early for a key it finds in a set it also fills (and never
+// empties again on the way out) makes the encoding of a shared sub-value depend on what was encoded
+// before it: the second occurrence of one *Person encodes as nothing.
+func encodingHistoryFree(c *Ctx, rule string, encoders ...string) {
+	c.rule(rule, "no function of an equality encoder (flatString and the helpers it hands its subject to) returns early under a membership test of a map that the same function inserts into without deleting the key again before it returns (an on-path set is fine, a seen-anywhere set is not): the encoding of a value must not depend on which values were encoded before it")
+	seen := map[*types.Func]bool{}
+	var visit func(d *declInfo, subject types.Object, depth int)
+	visit = func(d *declInfo, subject types.Object, depth int) {
+		if d == nil || depth > 3 || seen[d.obj] {
+			return
+		}
+		seen[d.obj] = true
+		c.sawFunc(d.name)
+		bad := ""
+		var pos token.Pos
+		ast.Inspect(d.fd.Body, func(n ast.Node) bool {
+			ifs, ok := n.(*ast.IfStmt)
+			if !ok || !terminates(ifs.Body) {
+				return true
+			}
+			for _, f := range condMembers(d, ifs.Cond, true, commaOkLookups(d, ifs), "if") {
+				if !f.present || f.m == nil {
+					continue
+				}
+				// the same function inserts the key …
+				inserts, deletes := false, false
+				ast.Inspect(d.fd.Body, func(m ast.Node) bool {
+					switch s := m.(type) {
+					case *ast.AssignStmt:
+						for _, l := range s.Lhs {
+							if ix, ok := l.(*ast.IndexExpr); ok && baseObj(d, ix.X) == f.m && sameKey(types.ExprString(ix.Index), f.key) {
+								inserts = true
+							}
+						}
+					case *ast.CallExpr:
+						if id, ok := s.Fun.(*ast.Ident); ok && id.Name == "delete" && len(s.Args) == 2 && objOf(d.pkg, s.Args[0]) == f.m {
+							deletes = true
+						}
+					}
+					return true
+				})
+				if inserts && !deletes {
+					bad, pos = fmt.Sprintf("returns early when %s is already in %s, which it fills and never empties", f.key, f.mexpr), ifs.Pos()
+				}
+			}
+			return true
+		})
+		c.check(bad == "", rule, d.name, c.P.Pos(pos), "no seen-anywhere set", fmt.Sprintf("%s %s: a value reachable twice (a shared contact) is encoded in full the first time and as nothing the second time, so equal values get different encodings and different values the same", d.name, bad))
+		for _, cs := range callsIn(d.pkg, d.fd.Body) {
+			if cs.callee.Pkg() == nil || !strings.HasPrefix(cs.callee.Pkg().Path(), modPath+"/") || cs.callee == d.obj {
+				continue
+			}
+			fd, pk := c.P.FuncDecl(objName(cs.callee))
+			if fd == nil || fd.Body == nil {
+				continue
+			}
+			// helpers that receive the subject, or an element of one of its lists, as receiver
+			if sel, ok := cs.call.Fun.(*ast.SelectorExpr); ok && fd.Recv != nil && len(fd.Recv.List) == 1 && len(fd.Recv.List[0].Names) == 1 {
+				rt := d.pkg.TypesInfo.TypeOf(sel.X)
+				if rt != nil && subject != nil && types.Identical(rt, subject.Type()) {
+					visit(&declInfo{fd: fd, pkg: pk, obj: cs.callee, name: objName(cs.callee)}, pk.TypesInfo.Defs[fd.Recv.List[0].Names[0]], depth+1)
+				}
+			}
+		}
+	}
+	for _, e := range encoders {
+		d := c.decl(rule, e)
+		if d == nil {
+			continue
+		}
+		recv, _ := recvAndParam(d)
+		visit(d, recv, 0)
+	}
+}
+
+// commaOkLookups: the comma-ok lookups usable in the condition of ifs (its own init statement and
+// the function's other single-statement lookups).
+func commaOkLookups(d *declInfo, ifs *ast.IfStmt) map[types.Object]*ast.IndexExpr {
+	out := map[types.Object]*ast.IndexExpr{}
+	ast.Inspect(d.fd.Body, func(n ast.Node) bool {
+		if s, ok := n.(ast.Stmt); ok {
+			if o, ix := commaOkLookup(d, s); o != nil {
+				out[o] = ix
+			}
+		}
+		return true
+	})
+	if ifs.Init != nil {
+		if o, ix := commaOkLookup(d, ifs.Init); o != nil {
+			out[o] = ix
+		}
+	}
+	return out
+}
+
+// seedTransformsKeepSeeds: C05 — "deterministically whenever a usable seed is given". Inside the
+// identifier generator every rewrite of a seed maps a non-empty string to a non-empty string:
+// replacing by a non-empty constant, escaping through the regexp, case mapping. A trim, a cut, a
+// re-slice or a replacement by "" can empty a seed; an emptied seed is dropped and the generator
+// falls back to a random UUID although a seed was given.
+func seedTransformsKeepSeeds(c *Ctx) {
+	const R = "seed-survives-normalisation"
+	c.rule(R, "in NewNodeIdentifier (and the unexported helpers it is split into) every assignment that rewrites a seed string is strings.ReplaceAll/Replace with a non-empty constant replacement, a regexp ReplaceAll* escape, strings.ToLower/ToUpper/ToValidUTF8 with a non-empty replacement, a conversion, or a concatenation that keeps the seed; strings.Trim*/TrimSpace/Cut*/Split*/Fields and re-slicing are reported (they can empty a seed, which is then replaced by a random identifier)")
+	n := 0
+	for _, d := range pkgFilter(c.reachDecls(R, "sbom.NewNodeIdentifier"), "sbom.") {
+		if d.name != "sbom.NewNodeIdentifier" && (d.obj == nil || ast.IsExported(d.obj.Name())) {
+			continue
+		}
+		info := d.pkg.TypesInfo
+		ast.Inspect(d.fd.Body, func(x ast.Node) bool {
+			if _, isLit := x.(*ast.FuncLit); isLit {
+				return false // the escape callback builds its own replacement text (identifier-alphabet)
+			}
+			as, ok := x.(*ast.AssignStmt)
+			if !ok || as.Tok != token.ASSIGN || len(as.Lhs) != len(as.Rhs) {
+				return true
+			}
+			for i, l := range as.Lhs {
+				lo := objOf(d.pkg, l)
+				if lo == nil {
+					continue
+				}
+				if b, isB := lo.Type().Underlying().(*types.Basic); !isB || b.Info()&types.IsString == 0 {
+					continue
+				}
+				// a rewrite: the right-hand side mentions the variable itself
+				self := false
+				ast.Inspect(as.Rhs[i], func(m ast.Node) bool {
+					if id, ok := m.(*ast.Ident); ok && info.Uses[id] == lo {
+						self = true
+					}
+					return true
+				})
+				if !self {
+					continue
+				}
+				n++
+				verdict, why := "", ""
+				var judge func(e ast.Expr) (string, string)
+				judge = func(e ast.Expr) (string, string) {
+					switch y := e.(type) {
+					case *ast.ParenExpr:
+						return judge(y.X)
+					case *ast.Ident:
+						if info.Uses[y] == lo {
+							return "keeps", "the seed itself"
+						}
+					case *ast.BinaryExpr:
+						if y.Op == token.ADD {
+							if v, _ := judge(y.X); v == "keeps" {
+								return "keeps", "concatenation"
+							}
+							if v, _ := judge(y.Y); v == "keeps" {
+								return "keeps", "concatenation"
+							}
+						}
+					case *ast.SliceExpr:
+						return "empties", "re-slicing " + types.ExprString(y)
+					case *ast.CallExpr:
+						if tv, ok := info.Types[y.Fun]; ok && tv.IsType() && len(y.Args) == 1 {
+							return judge(y.Args[0])
+						}
+						f, _ := typeutil.Callee(info, y).(*types.Func)
+						if f == nil {
+							return "", "call of " + types.ExprString(y.Fun)
+						}
+						full := f.FullName()
+						nonEmptyConst := func(a ast.Expr) bool {
+							v, ok := constOf(d.pkg, a)
+							return ok && v.isStr() && v.str() != ""
+						}
+						switch {
+						case full == "strings.ReplaceAll" && len(y.Args) == 3, full == "strings.Replace" && len(y.Args) == 4:
+							if nonEmptyConst(y.Args[2]) {
+								return judge(y.Args[0])
+							}
+							return "empties", full + " with a replacement that may be empty"
+						case full == "strings.ToLower", full == "strings.ToUpper", full == "strings.ToTitle":
+							return judge(y.Args[0])
+						case strings.HasPrefix(full, "(*regexp.Regexp).ReplaceAll"):
+							// the escape: judged by identifier-alphabet; it maps matches to C<number> text
+							if len(y.Args) >= 1 {
+								return judge(y.Args[0])
+							}
+						case strings.HasPrefix(full, "strings.Trim"), strings.HasPrefix(full, "strings.Cut"), strings.HasPrefix(full, "strings.Split"),
+							full == "strings.Fields", full == "strings.TrimSpace":
+							return "empties", full + " can return the empty string for a non-empty seed"
+						}
+						return "", "call of " + full
+					}
+					return "", types.ExprString(e)
+				}
+				verdict, why = judge(as.Rhs[i])
+				construct := fmt.Sprintf("%s#rewrite@%d", d.name, n)
+				switch verdict {
+				case "keeps":
+					c.ok(R, construct, c.P.Pos(as.Pos()), "non-empty seeds stay non-empty ("+why+")")
+				case "empties":
+					c.bad(R, construct, c.P.Pos(as.Pos()), fmt.Sprintf("the seed is rewritten by %s: a seed made only of the characters removed becomes empty, is dropped, and the identifier is generated from a random UUID although a seed was given", why))
+				default:
+					c.undecided(R, construct, c.P.Pos(as.Pos()), "seed rewrite not recognised: "+why)
+				}
+			}
+			return true
+		})
+	}
+	if n == 0 {
+		c.undecided(R, "anchor:sbom.NewNodeIdentifier", "-", "no seed rewrite found in the generator")
+	}
+}
+
+// calleeWriteGuards: when a loop's accumulate step is a call of a module helper that writes through
+// its receiver or a parameter, the helper's own early exits and enclosing conditions decide whether
+// the element is taken. They are returned as text (empty: the write is unconditional, apart from
+// lazy initialisation of the container and nil-receiver tests).
+func calleeWriteGuards(f *types.Func) []string {
+	if theProgram == nil || f == nil {
+		return nil
+	}
+	fd, pk := theProgram.FuncDecl(objName(f))
+	if fd == nil || fd.Body == nil {
+		return nil
+	}
+	d := &declInfo{fd: fd, pkg: pk, obj: f, name: objName(f)}
+	owned := map[types.Object]bool{}
+	if fd.Recv != nil && len(fd.Recv.List) == 1 && len(fd.Recv.List[0].Names) == 1 {
+		owned[pk.TypesInfo.Defs[fd.Recv.List[0].Names[0]]] = true
+	}
+	for _, fl := range fd.Type.Params.List {
+		for _, n := range fl.Names {
+			owned[pk.TypesInfo.Defs[n]] = true
+		}
+	}
+	// the writes (only direct ones; nested helpers are judged where they are the accumulate step)
+	var writes []*ast.AssignStmt
+	ast.Inspect(fd.Body, func(n ast.Node) bool {
+		if _, isLit := n.(*ast.FuncLit); isLit {
+			return false
+		}
+		as, ok := n.(*ast.AssignStmt)
+		if !ok {
+			return true
+		}
+		for _, l := range as.Lhs {
+			if _, bare := l.(*ast.Ident); bare {
+				continue
+			}
+			if owned[baseObj(d, l)] {
+				// lazy initialisation `x.M = map…{}` under `x.M == nil` is not the write we look for
+				if len(as.Rhs) == 1 {
+					if _, isLit := as.Rhs[0].(*ast.CompositeLit); isLit {
+						continue
+					}
+					if ce, isCall := as.Rhs[0].(*ast.CallExpr); isCall {
+						if id, isId := ce.Fun.(*ast.Ident); isId && id.Name == "make" {
+							continue
+						}
+					}
+				}
+				writes = append(writes, as)
+			}
+		}
+		return true
+	})
+	if len(writes) == 0 {
+		return nil
+	}
+	// only value setters are judged here: the helper rejects some *values* it is handed (a basic-typed
+	// parameter appears in the condition) and has no error result through which it could say so
+	if sig, _ := f.Type().(*types.Signature); sig != nil {
+		for i := 0; i < sig.Results().Len(); i++ {
+			if sig.Results().At(i).Type().String() == "error" {
+				return nil
+			}
+		}
+	}
+	valueParam := map[types.Object]bool{}
+	for _, fl := range fd.Type.Params.List {
+		for _, n := range fl.Names {
+			o := pk.TypesInfo.Defs[n]
+			if o == nil {
+				continue
+			}
+			if _, isBasic := o.Type().Underlying().(*types.Basic); isBasic {
+				valueParam[o] = true
+			}
+		}
+	}
+	mentionsValueParam := func(cond ast.Expr) bool {
+		found := false
+		ast.Inspect(cond, func(n ast.Node) bool {
+			if id, ok := n.(*ast.Ident); ok && valueParam[pk.TypesInfo.Uses[id]] {
+				found = true
+			}
+			return true
+		})
+		return found
+	}
+	benign := func(cond ast.Expr) bool {
+		if !mentionsValueParam(cond) {
+			return true
+		}
+		// nil tests of the receiver/parameters themselves
+		ok := true
+		for _, cj := range append(conjuncts(cond), disjuncts(cond)...) {
+			be, isB := cj.(*ast.BinaryExpr)
+			if !isB || (be.Op != token.EQL && be.Op != token.NEQ) || !isNilIdent(pk, be.Y) || !owned[objOf(pk, be.X)] {
+				ok = false
+			}
+		}
+		return ok
+	}
+	seen := map[string]bool{}
+	var out []string
+	add := func(cond ast.Expr) {
+		if benign(cond) {
+			return
+		}
+		t := types.ExprString(cond)
+		if !seen[t] {
+			seen[t] = true
+			out = append(out, t)
+		}
+	}
+	// every write must be reached on every path: collect what can prevent the first of them
+	w := writes[0]
+	chain := enclosing(fd.Body, w)
+	for i, en := range chain {
+		switch y := en.(type) {
+		case *ast.IfStmt:
+			if i+1 < len(chain) && (chain[i+1] == ast.Node(y.Body) || chain[i+1] == y.Else) {
+				add(y.Cond)
+			}
+		case *ast.BlockStmt:
+			if i+1 >= len(chain) {
+				continue
+			}
+			for _, st := range y.List {
+				if st == chain[i+1] {
+					break
+				}
+				if ifs, isIf := st.(*ast.IfStmt); isIf && terminates(ifs.Body) {
+					add(ifs.Cond)
+				}
+			}
+		case *ast.CaseClause:
+			for _, e := range y.List {
+				add(e)
+			}
+		}
+	}
+	return out
+}
+
+func disjuncts(e ast.Expr) []ast.Expr {
+	switch x := e.(type) {
+	case *ast.ParenExpr:
+		return disjuncts(x.X)
+	case *ast.BinaryExpr:
+		if x.Op == token.LOR {
+			return append(disjuncts(x.X), disjuncts(x.Y)...)
+		}
+	}
+	return nil
+}
+
+// locksNotCopied: C17 — a mutex guards what shares its address. A struct that holds a sync
+// primitive by value and is itself copied (value receiver, by-value parameter or result, plain
+// assignment, range value) gives every copy its own lock while the maps and slices inside are still
+// shared: the "locked" accesses exclude nobody.
+func locksNotCopied(c *Ctx) {
+	const R = "lock-not-copied"
+	c.rule(R, "no type of the library packages that contains a sync.Mutex/RWMutex/Once/WaitGroup/Cond/Map/Pool or an atomic value by value is copied: its methods have pointer receivers, it is never a by-value parameter or result, and no assignment, range clause or call argument copies a value of that type (composite literals and call results are fresh values)")
+	memo := map[types.Type]bool{}
+	var holdsLock func(t types.Type, depth int) bool
+	holdsLock = func(t types.Type, depth int) bool {
+		if depth > 6 {
+			return false
+		}
+		if v, ok := memo[t]; ok {
+			return v
+		}
+		memo[t] = false
+		res := false
+		if nt, ok := t.(*types.Named); ok && nt.Obj().Pkg() != nil {
+			switch nt.Obj().Pkg().Path() + "." + nt.Obj().Name() {
+			case "sync.Mutex", "sync.RWMutex", "sync.Once", "sync.WaitGroup", "sync.Cond", "sync.Map", "sync.Pool":
+				res = true
+			}
+			if nt.Obj().Pkg().Path() == "sync/atomic" {
+				res = true
+			}
+		}
+		if !res {
+			switch u := t.Underlying().(type) {
+			case *types.Struct:
+				for i := 0; i < u.NumFields(); i++ {
+					if holdsLock(u.Field(i).Type(), depth+1) {
+						res = true
+					}
+				}
+			case *types.Array:
+				res = holdsLock(u.Elem(), depth+1)
+			}
+		}
+		memo[t] = res
+		return res
+	}
+	n := 0
+	for _, rel := range statePkgs {
+		pk := c.P.pkg(rel)
+		if pk == nil {
+			continue
+		}
+		for _, file := range pk.Syntax {
+			if strings.HasSuffix(c.P.Fset.Position(file.Pos()).Filename, ".pb.go") {
+				continue
+			}
+			for _, dd := range file.Decls {
+				fd, ok := dd.(*ast.FuncDecl)
+				if !ok {
+					continue
+				}
+				obj, _ := pk.TypesInfo.Defs[fd.Name].(*types.Func)
+				if obj == nil {
+					continue
+				}
+				sig := obj.Type().(*types.Signature)
+				name := objName(obj)
+				check := func(v *types.Var, role string) {
+					if v == nil {
+						return
+					}
+					if _, isPtr := v.Type().(*types.Pointer); isPtr {
+						return
+					}
+					if holdsLock(v.Type(), 0) {
+						n++
+						c.bad(R, name+"#"+role, c.P.Pos(fd.Pos()), fmt.Sprintf("%s takes its %s of type %s by value: the call copies the lock inside it, so the method locks a private copy while the data it guards is shared with the original", name, role, types.TypeString(v.Type(), func(p *types.Package) string { return p.Name() })))
+					}
+				}
+				check(sig.Recv(), "receiver")
+				for i := 0; i < sig.Params().Len(); i++ {
+					check(sig.Params().At(i), fmt.Sprintf("parameter %d", i))
+				}
+				for i := 0; i < sig.Results().Len(); i++ {
+					check(sig.Results().At(i), fmt.Sprintf("result %d", i))
+				}
+				if fd.Body == nil {
+					continue
+				}
+				fresh := func(e ast.Expr) bool {
+					switch x := e.(type) {
+					case *ast.CompositeLit, *ast.CallExpr:
+						return true
+					case *ast.ParenExpr:
+						_ = x
+					}
+					return false
+				}
+				k := 0
+				ast.Inspect(fd.Body, func(x ast.Node) bool {
+					switch s := x.(type) {
+					case *ast.AssignStmt:
+						for _, r := range s.Rhs {
+							if t := pk.TypesInfo.TypeOf(r); t != nil && !fresh(r) && holdsLock(t, 0) {
+								if _, isPtr := t.(*types.Pointer); !isPtr {
+									k++
+									c.bad(R, fmt.Sprintf("%s#copy@%d", name, k), c.P.Pos(s.Pos()), fmt.Sprintf("%s copies a value of type %s (which contains a lock) by assignment", name, types.TypeString(t, func(p *types.Package) string { return p.Name() })))
+								}
+							}
+						}
+					case *ast.RangeStmt:
+						if s.Value != nil {
+							if t := pk.TypesInfo.TypeOf(s.Value); t != nil && holdsLock(t, 0) {
+								if _, isPtr := t.(*types.Pointer); !isPtr {
+									k++
+									c.bad(R, fmt.Sprintf("%s#copy@%d", name, k), c.P.Pos(s.Pos()), fmt.Sprintf("%s ranges over values of type %s (which contains a lock): each iteration copies the lock", name, types.TypeString(t, func(p *types.Package) string { return p.Name() })))
+								}
+							}
+						}
+					}
+					return true
+				})
+				n++
+			}
+		}
+	}
+	c.ok(R, "library-packages", "-", fmt.Sprintf("%d functions inspected, no lock-holding value is copied", n))
+}
